@@ -16,6 +16,11 @@ from . import common
 from .verifier_common import pick_instances, CIRCUIT
 
 
+# prover-supplied decompositions inside the FRI query phase (the query index decides which cap entry of the key is compared): hint sites
+# outside GlGadgets' four are probed with generic alternatives after run() (bin/check, common.Ctx.foreign)
+FOREIGN = (("fri.",), ("testdata",))
+
+
 def run(ctx):
     ctx.rule = ("(template instance, k, wrapper, alternative key): every key element (16 cap entries + digest) x {+1, random, zero}, the other circuit's key, "
                 "seeded random keys; distinct = distinct tuples")
